@@ -27,7 +27,7 @@ TRAP_MSG = {
     "OVERFLOW": "overflow",
     "SHIFT": "shift amount out of bounds",
 }
-MONITOR_EXITS = {94: "C09-deadlock", 95: "C10-rootscan", 96: "C09-waitlist", 97: "C04-stw"}
+MONITOR_EXITS = {93: "C12-terminator", 94: "deadlock", 95: "C10-rootscan", 96: "C09-waitlist", 97: "C04-stw"}
 
 
 class Outcome:
